@@ -7,6 +7,6 @@ Set Extraction KeepSingleton.
 Extraction "extracted/c12/model.ml" Validate.prepare Validate.vanalyse Validate.van_ok Validate.late_names Validate.tolerant_names
   Validate.silent_names12 Validate.unclean_getters Validate.claims_all Validate.mode_gates_all Validate.getter_sample
   Validate.getters_ok_b Validate.addr_macro_ok Validate.vall_parsed_b Validate.revalidating_wrappers Validate.known_late
-  Validate.known_tolerant Validate.known_silent Validate.c12_file_ops Gates.bad_getters Gates.unknown_externs
+  Validate.known_tolerant Validate.known_silent Validate.c12_file_ops Validate.unclaimed_all Validate.known_unvalidated Gates.bad_getters Gates.unknown_externs
   Gen_C12.table Gen_C12.externs Gen_C12.mirrors Gen_C12.getters Gen_C12.alloc_pairs Gen_C12.getter_names Gen_C12.addr_macro
   Gen_C12.addr_rows.
